@@ -225,28 +225,28 @@ theorem C01_multi_sub_chain (ints : String → Int) (cls : String → AssetClass
 
 /-! ### The hypotheses are satisfiable: a program declaring `asset Tok = 0xab.0xcd;` -/
 
-def exProg : Program :=
+def maProg : Program :=
   { env := [], parties := [], policies := [],
     assets := [("Tok", .leaf (.hex "ab"), .leaf (.hex "cd"))], types := [], aliases := [], txs := [] }
-def exTx : TxDef :=
+def maTx : TxDef :=
   { name := "t", params := [("q", .int)], locals := [], inputs := [], references := [], collateral := none,
     outputs := [], mints := [], burns := [], validity := none, signers := none, metadata := none, adhoc := [] }
-def exCls : String → AssetClass := fun _ => entryClass (.leaf (.bytes [0xab])) (.leaf (.bytes [0xcd]))
+def maCls : String → AssetClass := fun _ => entryClass (.leaf (.bytes [0xab])) (.leaf (.bytes [0xcd]))
 
-example : AdaBuiltin { prog := exProg, tx := exTx } := by
+example : AdaBuiltin { prog := maProg, tx := maTx } := by
   constructor
-  · simp [resolve, resolveOuter, indexOfOutput, indexOfOutput.go, lastWith, exProg, exTx]
-  · simp [exProg]
+  · simp [resolve, resolveOuter, indexOfOutput, indexOfOutput.go, lastWith, maProg, maTx]
+  · simp [maProg]
 
-example : TokOf { prog := exProg, tx := exTx } exCls "Tok" := by
+example : TokOf { prog := maProg, tx := maTx } maCls "Tok" := by
   refine ⟨by decide, by decide, by decide, by decide, by decide, "ab", "cd", [0xab], [0xcd], ?_, ?_, ?_, rfl⟩
-  · simp [resolve, resolveOuter, indexOfOutput, indexOfOutput.go, lastWith, exProg, exTx]
+  · simp [resolve, resolveOuter, indexOfOutput, indexOfOutput.go, lastWith, maProg, maTx]
   · simp [hexDecode, hexDecodeChars, hexVal]
   · simp [hexDecode, hexDecodeChars, hexVal]
 
 /-- `Tok(5) - Tok(2) + Ada(7)` denotes 3 of the token's class and 7 lovelace. -/
 example : (MExp.add (MExp.sub (MExp.tok "Tok" (.num 5)) (MExp.tok "Tok" (.num 2))) (MExp.ada (.num 7))).den
-    (fun _ => 0) exCls (exCls "Tok") = 3 := by
-  simp [MExp.den, IExp.den, exCls, entryClass, nameExprOf, constPolicy, constName, fromAsset, fromDefinedAsset, AssetClass.naked]
+    (fun _ => 0) maCls (maCls "Tok") = 3 := by
+  simp [MExp.den, IExp.den, maCls, entryClass, nameExprOf, constPolicy, constName, fromAsset, fromDefinedAsset, AssetClass.naked]
 
 end Tx3.Lang
